@@ -34,17 +34,24 @@ macro_rules! case {
                 "multi" => Unimock::new(OutMock::$m.each_call(matching!()).returns(v)),
                 "al1" => Unimock::new(OutMock::$m.some_call(matching!()).returns(v).at_least_times(1)),
                 _ => Unimock::new(OutMock::$m.some_call(matching!()).returns(v).n_times(2)),
-            }
-            .no_verify_in_drop();
+            };
             let mut outs = vec![];
+            let mut msgs: Vec<String> = vec![];
             for _ in 0..3 {
                 let r = std::panic::catch_unwind(std::panic::AssertUnwindSafe(|| u.$m().show()));
                 outs.push(match r {
                     Ok(s) => s,
-                    Err(p) => classify(&p.downcast_ref::<String>().cloned().unwrap_or_default()),
+                    Err(p) => { let m = p.downcast_ref::<String>().cloned().or_else(|| p.downcast_ref::<&str>().map(|s| s.to_string())).unwrap_or_default(); msgs.push(m.clone()); classify(&m) }
                 });
             }
             println!("case {} path={} val={} outs={}", stringify!($m), path, $sexpr, outs.join(" "));
+            // every mock-induced panic above names the call and is remembered: verifying the original reports its full text
+            let verdict = std::panic::catch_unwind(std::panic::AssertUnwindSafe(move || u.verify()))
+                .err().map(|p| p.downcast_ref::<String>().cloned().unwrap_or_default()).unwrap_or_default();
+            let named = msgs.iter().filter(|m| m.starts_with(concat!("OutT::", stringify!($m), "()"))).count();
+            let remembered = msgs.iter().filter(|m| !m.is_empty() && verdict.contains(m.as_str())).count();
+            println!("rec {} path={} val={} panics={} named={} remembered={} first={}", stringify!($m), path, $sexpr, msgs.len(), named, remembered,
+                msgs.first().map(|m| m.lines().next().unwrap_or("").to_string()).unwrap_or_default());
         }
     }};
 }
@@ -87,6 +94,14 @@ fn main() {
     case!(d_poll_res, Poll::<Result<Tok, Tok>>::Pending, "P");
     case!(d_poll_res, Poll::Ready(Ok::<Tok, Tok>(t(1))), "R(O(L1))");
     case!(d_poll_res, Poll::Ready(Err::<Tok, Tok>(t(2))), "R(E(L2))");
+    // the receiver's lifetime spelled out (`&'s self` -> `&'s Tok`): same shapes as with elided lifetimes; values given as `&'static` borrows
+    case!(l_ref, &STATIC_TOK, "L9");
+    case!(l_opt, Some(&STATIC_TOK), "S(L9)");
+    case!(l_opt, None::<&'static Tok>, "N");
+    case!(l_res, Ok::<&'static Tok, Tok>(&STATIC_TOK), "O(L9)");
+    case!(l_res, Err::<&'static Tok, Tok>(t(2)), "E(L2)");
+    case!(l_tup, (&STATIC_TOK, t(2)), "T[L9,L2]");
+    case!(l_vec_opt, vec![Some(&STATIC_TOK), None, Some(&STATIC_TOK)], "V[S(L9),N,S(L9)]");
     case!(d_opt_vec_res, None::<Vec<Result<Tok, Tok>>>, "N");
     case!(d_opt_vec_res, Some(vec![Ok::<Tok, Tok>(t(1)), Err(t(2)), Ok(t(3))]), "S(V[O(L1),E(L2),O(L3)])");
 }
